@@ -101,8 +101,23 @@ func (m *machine) check(t *rapid.T, what string) {
 		}
 		signers := m.distinctSigners(full)
 		if len(signers) < need {
-			t.Fatalf("%s: block b%d (height %d) became stable with %d distinct deputy signers %v, %d of %d are needed (it carries %d confirms)\nhistory: %v",
-				what, sn.id, st.Height(), len(signers), keys(signers), need, n, len(full.Confirms), m.history)
+			detail := ""
+			hh := full.Hash()
+			for i, c := range full.Confirms {
+				cc := c
+				who := "nobody"
+				if pub, err := crypto.Ecrecover(hh[:], cc[:]); err == nil {
+					who = "unknown key"
+					for k, d := range m.w.Deputies {
+						if string(pub[1:]) == string(d.NodeID) {
+							who = fmt.Sprintf("d%d", k)
+						}
+					}
+				}
+				detail += fmt.Sprintf(" confirm%d=%s(%x..)", i, who, cc[32:36])
+			}
+			t.Fatalf("%s: block b%d (height %d) became stable with %d distinct deputy signers %v, %d of %d are needed (it carries %d confirms:%s)\nhistory: %v",
+				what, sn.id, st.Height(), len(signers), keys(signers), need, n, len(full.Confirms), detail, m.history)
 		}
 		m.stable = sn
 		m.stats["promotions"]++
